@@ -59,4 +59,99 @@ theorem C24_inbound_no_topic (s : Server) (q id : Nat)
     by_cases hh : q = 0 <;> by_cases hi : id > 0 <;> simp_all
   simp [h1, h2]
 
+/-- `DisconnectClient` retains nothing -/
+theorem disconnectClient_rmsgs (s : Server) (i code : Nat) : (disconnectClient s i code).1.rmsgs = s.rmsgs := by
+  unfold disconnectClient stopClient
+  extract_lets c w
+  split
+  rename_i s' o heq
+  split at heq
+  · cases heq; rfl
+  · cases heq; rfl
+
+/-- `DisconnectClient` writes a DISCONNECT (and closes), never a PUBLISH -/
+theorem disconnectClient_no_publish (s : Server) (i code n ver : Nat) (m : Msg) (me : Bool) :
+    Out.wrote n (.publish ver m me) ∉ (disconnectClient s i code).2 := by
+  unfold disconnectClient stopClient
+  extract_lets c w
+  split
+  rename_i s' o heq
+  intro hm
+  rcases List.mem_append.mp hm with h | h
+  · simp only [w] at h
+    split at h
+    · simp at h
+    · cases h
+  · split at heq
+    · cases heq; cases h
+    · cases heq
+      split at h
+      · cases h
+      · simp at h
+
+/-- the unbound-alias exit of `processPublish`: the whole handler is a `disconnectClient … 0x82` on a state with the
+    retained messages of the start state -/
+theorem processPublish_unbound_alias_shape (s : Server) (i q id : Nat) (dup retain : Bool) (payload : Str) (msgExpiry a : Nat)
+    (hinl : (getObj s i).inline = false) (hquota : (getObj s i).recvQuota ≠ 0)
+    (hacl : aclOk s (getObj s i).id [] true = true)
+    (hfl : ∀ m, flGet (getObj s i) id = some m → (m.type == 5) = false)
+    (hmax : s.caps.topicAliasMaximum > 0) (ha : a > 0)
+    (hunbound : assocGet (getObj s i).aliasIn a = none) :
+    ∃ s1 : Server, s1.rmsgs = s.rmsgs ∧
+      processPublish s i q dup retain id [] payload msgExpiry (some a) =
+        ((disconnectClient s1 i 0x82).1, (disconnectClient s1 i 0x82).2, some 0x82) := by
+  have hv : isValidFilter [] true = true := by decide
+  unfold processPublish
+  extract_lets +onlyGivenNames c
+  have hinl' : c.inline = false := hinl
+  have hq : ¬ (c.recvQuota == 0) = true := by simpa using hquota
+  have hacl' : aclOk s c.id [] true = true := hacl
+  rw [if_neg (by simp [hinl', hv]), if_neg hq, if_neg (by simp [hacl'])]
+  extract_lets +onlyGivenNames e pk pre
+  have hpre : pre = none := by
+    simp only [pre]
+    rw [if_neg (by simp [hinl'])]
+    split
+    · rename_i pki hg
+      rw [if_neg (by simp [hfl pki hg])]
+    · rfl
+  generalize pre = pre' at hpre
+  split
+  · cases hpre
+  clear hpre
+  split
+  rename_i s1 c1 heq
+  have h1 : s1.rmsgs = s.rmsgs ∧ s1.caps = s.caps ∧ c1.inline = false ∧ c1.aliasIn = c.aliasIn := by
+    split at heq
+    · cases heq; exact ⟨rfl, rfl, hinl', rfl⟩
+    · cases heq; exact ⟨rfl, rfl, hinl', rfl⟩
+  clear heq
+  obtain ⟨hr1, hcaps1, hinl1, hal1⟩ := h1
+  have hm0 : ¬ (s1.caps.topicAliasMaximum == 0) = true := by
+    rw [hcaps1]; simp; omega
+  have hub : assocGet c1.aliasIn a = none := by rw [hal1]; exact hunbound
+  simp only [if_pos ha, if_neg hm0, hub]
+  rw [if_pos (by simp [hinl1, pk])]
+  exact ⟨setObj s1 i { c1 with aliasIn := assocSet c1.aliasIn a [] }, hr1, rfl⟩
+
+/-- inbound: an empty topic with an alias that is not bound on the connection is a protocol error: DISCONNECT 0x82,
+    nothing is routed (no PUBLISH written to any connection) and nothing is retained -/
+theorem C24_inbound_unbound_alias (s : Server) (i q id : Nat) (dup retain : Bool) (payload : Str) (msgExpiry a : Nat)
+    (hinl : (getObj s i).inline = false) (hquota : (getObj s i).recvQuota ≠ 0)
+    (hacl : aclOk s (getObj s i).id [] true = true)
+    (hfl : ∀ m, flGet (getObj s i) id = some m → (m.type == 5) = false)
+    (hmax : s.caps.topicAliasMaximum > 0) (ha : a > 0)
+    (hunbound : assocGet (getObj s i).aliasIn a = none) :
+    (processPublish s i q dup retain id [] payload msgExpiry (some a)).2.2 = some 0x82 ∧
+    (∀ n ver m me, Out.wrote n (.publish ver m me) ∉ (processPublish s i q dup retain id [] payload msgExpiry (some a)).2.1) ∧
+    (processPublish s i q dup retain id [] payload msgExpiry (some a)).1.rmsgs = s.rmsgs := by
+  obtain ⟨s1, hr, he⟩ := processPublish_unbound_alias_shape s i q id dup retain payload msgExpiry a hinl hquota hacl hfl hmax ha hunbound
+  rw [he]
+  exact ⟨rfl, fun n ver m me => disconnectClient_no_publish s1 i 0x82 n ver m me,
+         (disconnectClient_rmsgs s1 i 0x82).trans hr⟩
+
+/-- non-vacuity: the hypotheses of `C24_inbound_unbound_alias` hold for a fresh MQTT 5 connection with quota -/
+example : (processPublish { objs := [{ ver := 5, recvQuota := 1 }] } 0 0 false false 0 [] [1] 0 (some 3)).2 =
+    ([.wrote 0 (.disconnect 5 0x82), .closed 0], some 0x82) := by decide
+
 end Mochi.Broker
